@@ -53,15 +53,34 @@ func runC03History(r *mon.Run, stream uint64) {
 	// images are then those of the UNDERLYING database
 	var inner *chainlab.ShadowDB
 	var backend chain.DB
+	// the commits made while the store initialises a fresh database are commit
+	// points too (tip = genesis): the hook is installed before the store exists
+	var snaps []snapshot
+	var rec *chainlab.RecordingStore
+	var a *chainlab.Auditor
+	genesis := types.ChainIndex{ID: env.Genesis.ID()}
+	onFlush := func(durable map[string]map[string]string) {
+		if rec == nil || a == nil {
+			snaps = append(snaps, snapshot{img: chainlab.CloneImage(durable), tip: genesis})
+			return
+		}
+		snaps = append(snaps, snapshot{img: chainlab.CloneImage(durable), tip: rec.Cur, midReorg: rec.InBlockOp, call: a.Calls})
+	}
 	if rng.IntN(5) == 0 {
 		inner = chainlab.NewShadowDB(chain.NewMemDB())
+		inner.OnFlush = onFlush
 		backend = chain.NewCacheDB(inner)
+	} else {
+		outer := chainlab.NewShadowDB(chain.NewMemDB())
+		outer.OnFlush = onFlush
+		backend = outer
 	}
-	node, rec, err := chainlab.NewTestNodeRec(env, backend)
+	node, rec0, err := chainlab.NewTestNodeRec(env, backend)
 	if err != nil {
 		r.Inconclusive(err.Error())
 		return
 	}
+	r.Count("snapshots_during_initialisation", len(snaps))
 	policy := []string{"every-block", "every-block", "prng-half", "natural-only"}[rng.IntN(4)]
 	switch policy {
 	case "every-block":
@@ -70,17 +89,11 @@ func runC03History(r *mon.Run, stream uint64) {
 		chain.VerifSetFlushPolicy(node.Store, func() bool { return rng.IntN(2) == 0 })
 	}
 	defer chain.VerifSetFlushPolicy(node.Store, nil)
-	var snaps []snapshot
-	a := chainlab.NewAuditor(t, node)
-	onFlush := func(durable map[string]map[string]string) {
-		snaps = append(snaps, snapshot{img: chainlab.CloneImage(durable), tip: rec.Cur, midReorg: rec.InBlockOp, call: a.Calls})
-	}
+	a = chainlab.NewAuditor(t, node)
+	rec = rec0
 	if inner != nil {
-		inner.OnFlush = onFlush
 		policy += "+cachedb"
 		r.Count("histories_on_cachedb", 1)
-	} else {
-		node.Shadow.OnFlush = onFlush
 	}
 	cs := c03Case{Stream: stream, Params: p, Policy: policy}
 	sched := t.RandomSchedule(rng)
